@@ -9,6 +9,8 @@ import (
 )
 
 func init() {
+	vfHarnesses["C11_stop_deep"] = vfhC11StopDeep
+	vfHarnesses["C11_stop_deep_full"] = vfhC11StopDeepFull
 	vfHarnesses["C11_box_lemmas"] = vfhC11BoxLemmas
 	vfHarnesses["C11_range_search"] = vfhC11RangeSearch
 	vfHarnesses["C11_range_search_5"] = vfhC11RangeSearch5
@@ -324,6 +326,83 @@ func vfPriorityOrder(n int) {
 	dn := vfSqDist(boxes[id], q)
 	for i := range boxes {
 		vfAssert(dn <= vfSqDist(boxes[i], q), "Nearest is at the minimum distance")
+	}
+	vfReach("end")
+}
+
+// C11: trees of three and four levels (17..70 records on a concrete grid); the
+// query box is symbolic, the callback returns
+// Stop (plain or wrapped) or another error at the k-th invocation, k symbolic:
+// the callback is never invoked again, Stop surfaces as nil and the other error
+// is returned unchanged; without an early return exactly the records whose boxes
+// intersect the query are visited, each once.
+func vfhC11StopDeep()     { vfStopDeep(2, 5) }
+func vfhC11StopDeepFull() { vfStopDeep(3, 8) }
+
+func vfStopDeep(maxSize, maxK int) {
+	var n int
+	switch vfInt("size", 0, maxSize) {
+	case 0:
+		n = 17
+	case 1:
+		n = 18
+	case 2:
+		n = 33
+	default:
+		n = 70
+	}
+	boxes := make([]Box, n)
+	for i := range boxes {
+		x, y := float64(i%9)*2, float64(i/9)*2
+		boxes[i] = Box{MinX: x, MinY: y, MaxX: x + 1, MaxY: y + 1}
+	}
+	items := make([]BulkItem, n)
+	for i, b := range boxes {
+		items[i] = BulkItem{Box: b, RecordID: i}
+	}
+	t := BulkLoad(items)
+	// query: a lattice box (real relaxation); which records it meets is decided per record
+	q := Box{MinX: vfLattice("q.minx", 5), MinY: vfLattice("q.miny", 5), MaxX: vfLattice("q.maxx", 5), MaxY: vfLattice("q.maxy", 5)}
+	vfAssume(q.MinX <= q.MaxX && q.MinY <= q.MaxY)
+	k := vfInt("k", 0, maxK)
+	mode := vfInt("mode", 0, 2) // 0: Stop, 1: wrapped Stop, 2: another error
+	other := errors.New("other")
+	calls := 0
+	done := false
+	seen := make([]bool, n)
+	err := t.RangeSearch(q, func(id int) error {
+		vfAssert(!done, "callback invoked again after it returned an error")
+		vfAssert(id >= 0 && id < n && !seen[id], "each record at most once")
+		seen[id] = true
+		b := boxes[id]
+		vfAssert(b.MinX <= q.MaxX && q.MinX <= b.MaxX && b.MinY <= q.MaxY && q.MinY <= b.MaxY, "only records whose box meets the query")
+		if calls == k {
+			done = true
+			switch mode {
+			case 0:
+				return Stop
+			case 1:
+				return fmt.Errorf("wrapped: %w", Stop)
+			default:
+				return other
+			}
+		}
+		calls++
+		return nil
+	})
+	if done && mode == 2 {
+		vfAssert(err == other, "a callback error is returned unchanged")
+	} else {
+		vfAssert(err == nil, "Stop (plain or wrapped) and completion surface as nil")
+	}
+	if !done {
+		for i, b := range boxes {
+			meets := b.MinX <= q.MaxX && q.MinX <= b.MaxX && b.MinY <= q.MaxY && q.MinY <= b.MaxY
+			vfAssert(seen[i] == meets, "without an early return every record meeting the query is visited")
+		}
+		vfReach("complete")
+	} else {
+		vfReach("stopped")
 	}
 	vfReach("end")
 }
